@@ -43,6 +43,25 @@ def loose(text):
     return bool(re.search(r'[0-9]_*[A-Za-z]|[0-9]_(?![0-9])|\._|\.[+-]|_[0-9]|[eE]_', text)) or any(ch.isdigit() and ch not in '0123456789' for ch in text)
 
 
+STRESS = [
+    "@@whitespace :: /\\s*/\nstart = 'a' 'b' ;", "@@whitespace :: /x*/\nstart = 'a' 'b' ;", "@@whitespace :: /(?:)/\nstart = 'a' 'b' ;",
+    "@@comments :: /x*/\nstart = 'a' 'b' ;", "@@comments :: /(?:#.*)?/\nstart = 'a' 'b' ;", "@@eol_comments :: /#?/\nstart = 'a' 'b' ;",
+    "@@eol_comments :: /(?m)$/\nstart = 'a' 'b' ;", "@@whitespace :: /\\b/\nstart = 'a' 'b' ;",
+    '@@whitespace :: "("\nstart = \'a\' ;', '@@comments :: ?"("\nstart = \'a\' ;', "@@eol_comments :: /[/\nstart = 'a' ;",
+    "@@namechars :: '('\nstart = 'a' ;", "@@whitespace :: /(?P<n>a)(?P=m)/\nstart = 'a' ;",
+    'start = "\\N{foo}" ;', 'start = "\\x" ;', 'start = "\\u12" ;', "start = '\\U00110000' ;", 'start = "\\777" ;', "start = 'a\\' ;",
+    "start = `{[1]:2}` ;", "start = `[1]+1` ;", "start = `1/0` ;", "start = `{x}` ;", "start = `{0!z}` ;", "start = x:'a' `{x:>{x}}` ;",
+    "start = `'%s' % ()` ;", "start = `-''` ;", "start = `{}{}`;", "start = `{`;", "start = `9**9**9`;",
+    "start = /(/ ;", "start = /[/ 'a' ;", "start = ?'(?P<n>a)(?P=m)' ;", "start = /a{2,1}/ ;", "start = /(?i)a/ 'b' ;", "start = /a**/ ;",
+    "start = nosuch%{'a'} ;", "start = 'a' nosuch.{'b'}+ ;", "start = {} {} 'a' ;", "start = {()}+ 'a' ;",
+]
+
+
+def kf_stress(ck, ebnf, o, what):
+    """Known findings of the stress corpus (none listed at the moment)."""
+    return False
+
+
 def run(tier):
     ck = Check('C08', tier)
     rnd = random.Random(8000 + ck.seed)
@@ -150,6 +169,32 @@ def run(tier):
         if a:
             ck.violation({'kind': 'parse', 'inputs': {'grammar_text': o['text']}, 'expected': 'a grammar model or a TatSu parse/grammar error',
                           'observed': a[0], 'spec': 'C08: compiling any grammar text'}, key='compile' + a[0].split(':')[1][:30])
+    # ---- (4) lexical directives and literals that stress the regex / escape / constant machinery: patterns that match the empty string
+    # (a skip loop that does not advance must still terminate), invalid regular expressions, invalid escapes, constants whose
+    # evaluation raises
+    stress_texts = [list(t) for t in ['', 'a', 'a b', 'ab', 'a  b', 'x', 'a xx b', '# c\na b', 'a a', 'a b a', ' a b ']]
+    cases4 = [default_case(e, stress_texts, label='stress', timeout=6) for e in STRESS]
+    impl4 = run_impl(cases4, fn=run_error_case, chunk=1)
+    for c, im in zip(cases4, impl4):
+        ck.count(evaluations=1, traces=1)
+        if im['compile']['k'] == 'exc':
+            what = f"compile({c['ebnf']!r}) raised {im['compile'].get('cls')}"
+            if kf_stress(ck, c['ebnf'], im['compile'], what):
+                continue
+            ck.violation({'kind': 'parse', 'inputs': {'grammar': c['ebnf']}, 'expected': 'a model or a TatSu parse/grammar error', 'observed': im['compile'],
+                          'spec': 'C08: compiling any grammar text'}, key='c4' + c['ebnf'])
+            continue
+        for t, res in enumerate(im.get('res', [])):
+            for how, o in res.items():
+                ck.count(evaluations=1, traces=1)
+                why = domain(c, c['texts'][t], how, o)
+                if why:
+                    what = f"{c['ebnf']!r} on {''.join(c['texts'][t])!r}: {o.get('cls')}"
+                    if kf_stress(ck, c['ebnf'], o, what):
+                        continue
+                    ck.violation({'kind': 'parse', 'inputs': {'grammar': c['ebnf'], 'text': c['texts'][t], 'how': how},
+                                  'expected': 'a result or a parse failure at a consistent position', 'observed': o, 'why': why,
+                                  'spec': 'C08 outcome domain'}, key='stress' + c['ebnf'] + str(o.get('cls')))
     ck.cov['distinct_nontrivial'] = nd
     ck.notes.update({'meta_texts': len(texts), 'fuzz_grammars': len(pool), 'grammar_texts': len(gtexts)})
     ck.cov['rule'] = ('(1) 10 meta grammars x every text over {1,0,+,-,.,e,_,x,space} up to length 3/4 (+20) x {TextLines, Buffer} x parseinfo on/off; '
